@@ -586,6 +586,24 @@ def run(ctx):
                 ctx.violation({"source": "updatable-file", "workload": name, "fail": "workload-raised"}, {"error": err})
         finally:
             shutil.rmtree(root, ignore_errors=True)
+    # 2c. debug logging switched on through the environment before import (one subprocess, cwd = the evidence directory)
+    import json
+    import subprocess
+    root = tempfile.mkdtemp(prefix="verif-c09-")
+    try:
+        env = dict(os.environ, PYTHONDONTWRITEBYTECODE="1", VERIF_SEED=str(ctx.seed),
+                   **{f"DISSECT_LOG_{m}": "DEBUG" for m in ("VHDX", "VMDK", "QCOW2", "HDD", "VHD", "VDI", "HYPERV", "VMTAR", "ENVELOPE", "OVF", "VBOX", "PVS", "VMX")})
+        p = subprocess.run([sys.executable, os.path.join(core.ROOT, "props", "c09_child.py"), root], env=env, capture_output=True, text=True, timeout=300, cwd=root)
+        tid += 1
+        try:
+            res = json.loads(p.stdout.strip().splitlines()[-1])
+            traces.append({"tid": tid, "source": "debug-logging", "workload": "all-path-and-handle-workloads", "events": [{"kind": "fs", "changed": res["changed"], "phase": "lib"}]})
+            if res["errors"]:
+                ctx.violation({"source": "debug-logging", "fail": "workload-raised"}, {"errors": res["errors"][:3]})
+        except Exception:  # noqa: BLE001
+            raise core.MachineryError("c09_child failed: " + (p.stdout + p.stderr)[-800:])
+    finally:
+        shutil.rmtree(root, ignore_errors=True)
     # 3. call sites
     sites = call_sites(core.repo_path())
     tid += 1
